@@ -14,12 +14,25 @@ Round 2 (t1):
     The reference at each step is the bit-slicing reference for the endianness in effect at that step.
   * carried-over values: a value parsed under the previous byte order is dumped under the current one; the reference (and
     the real reader) for the current byte order must read the same field values back from those bytes.
+
+Round 5 (v5_c06bb): the class BitBuffer as an object - operation sequences against its Lean object model.
+Round 8 (v8_c06): call forms of structures that consist of bit-fields only (14 entry points into the reader).
+Round 9 (v9_c06): BIT-FIELDS DECLARED THROUGH THE API.  The same declaration (bit-field runs over every storage type incl.
+  enum/flag/char/signed/odd widths/typedef aliases, exhausted units, shared units, plain members, arrays, null-terminated arrays,
+  nested structures with bit-fields) is built along every construction route - cs.load (nested structures inline / named),
+  cs.loadfile of a real file, the legacy parser (DEF_LEGACY, in its input language), Field objects + cs._make_struct
+  (+ compiler.compile), T.add_field(name, type, bits) one by one on a base class of the first k fields (k = 0: empty; base made by
+  cs.load or _make_struct; bits positional / keyword), and add_field inside / outside `with T.start_update():` blocks in drawn
+  chunks - each on its own cstruct instance, {<,>} x {packed, aligned} x {interpreted, compiled}.  Every class must declare the
+  names, bits, size, alignment and unit offsets the independent reference (refimpl) prescribes and the cs.load class has, parse
+  the reference's values (each in [0, 2^bits)) from the same bytes through a drawn call form, dump the input's data bits, and
+  dump the same bytes when built from the field values; reads / writes of the API-built classes also go to the Lean model.
 """
 from __future__ import annotations
 
 import itertools
 
-from .. import defs, impl, refimpl, t1_hist, v5_c06bb, v8_c06
+from .. import defs, impl, refimpl, t1_hist, v5_c06bb, v8_c06, v9_c06
 from ..common import Result, mkrng
 from ..structprops import Engine, load, real_parse, bits_after_dynamic, small_unit_bits, signed_bit_units, rand_bytes
 
@@ -296,7 +309,16 @@ def run(env) -> Result:
                 "every form dumps (dumps/T.dumps/T.write/v.write) to the input's data bits and parses back; T(values that fit).dumps() = the "
                 "reference's composition, read back through every form; short input: all forms fail alike; T(bytes) form vs Lean model. "
                 "distinct = (definition, config, input) resp. (sequence, endian, stream); non-trivial = >= 2 bit-fields resp. >= 3 bit calls or 2 types "
-                "resp. (f) every (definition, config, input): 14 call forms")
+                "resp. (f) every (definition, config, input): 14 call forms. "
+                "(g) construction routes: seeded declarations (bit-field runs over 31 storage type names incl. enum/flag/char/signed/odd widths/"
+                "aliases, exhausted and shared units, plain members, fixed and null-terminated arrays, nested structures with bit-fields) x 2 (quick) / "
+                "4 (thorough) of {<,>} x {packed, aligned} x {interpreted, compiled}, each built by cs.load, cs.loadfile, the legacy parser (packed, "
+                "single-word type names, no nesting), Field objects + _make_struct (+ compiler.compile), add_field(name, type, bits) one by one on a "
+                "base of the first k fields (loaded or made; bits positional/keyword), add_field in chunks inside/outside start_update() blocks - one "
+                "cstruct instance per route: names, bits, size, alignment, unit offsets = independent reference (refimpl) = the cs.load class; "
+                "4-7 inputs per class through a drawn call form (T(stream|bytes|memoryview), T.read(stream|bytearray), T.reads): values = "
+                "reference, each bit-field an int / enum member in [0, 2^bits), consumed size, dumps = data bits of the input, T(**values).dumps() "
+                "the same; read/write of API-built classes vs Lean model. distinct = (declaration, route with its parameters, config[, call form, input])")
     eng = Engine(env, res, "C06")
     rnd = mkrng(env["seed"], "c06")
     tier = env["tier"]
@@ -392,6 +414,8 @@ def run(env) -> Result:
     v5_c06bb.run(env, eng, res, mkrng(env["seed"], "c06-bb"))
     # (f) call forms of bit-field-only structures (one bit-field in particular): every entry point into the reader, exact-size inputs
     v8_c06.run(env, eng, res, mkrng(env["seed"], "c06-callforms"))
+    # (g) bit-fields declared through the API: the same declaration along every construction route
+    v9_c06.run(env, eng, res, mkrng(env["seed"], "c06-api"))
     res.sample({"definition": defs.render_struct("T", trees[0]), "inputs": "all 256 byte values"})
     res.sample({"definition": defs.render_struct("T", trees[-1])})
     return res
@@ -403,5 +427,7 @@ def replay(body) -> int:
         return v5_c06bb.replay_case(body["case"])
     if "callforms" in (body.get("case") or {}):
         return v8_c06.replay_case(body["case"])
+    if "apibits" in (body.get("case") or {}):
+        return v9_c06.replay_case(body["case"])
     print(body.get("case", {}).get("repro"), body.get("case", {}).get("data"))
     return 0
